@@ -624,7 +624,10 @@ def enStep (d : EnDrv) (line : String) : EnDrv × String :=
     let r := Entry.newInst regEnv enShape d.w (if exf == "raw" then .raw else .only) tagged
     let d' := { d with w := r.1, tag := d.tag + ss.length }
     if r.2 == .abort then ({ d' with dead := true }, "DEAD")
-    else (d', s!"{fmtRes r.2} disp={dispDiff d.w.reg r.1.reg}")
+    else
+      -- a failed constructor leaves nothing behind: no registration of its own, no descriptor
+      let tail := if fmtRes r.2 == "ok" then "" else " fds=+0"
+      (d', s!"{fmtRes r.2} disp={dispDiff d.w.reg r.1.reg}{tail}")
   | [op, s] =>
     match op, parseInt? s with
     | "add", some n | "hadd", some n =>
@@ -667,6 +670,8 @@ structure FlDrv where
   bools : List String := []
   usizes : List String := []
   dead : Option Nat := none
+  /-- a registered raw action that will raise the signal once more from inside the next delivery -/
+  reraise : Bool := false
 
 def flagIdx (n : String) : Nat :=
   let k := ((n.drop 1).toString.toNat?).getD 0
@@ -689,11 +694,15 @@ def flStep (d : FlDrv) (line : String) : FlDrv × String :=
       let x := v.toNat?.getD 0
       let x := if f.startsWith "b" then (if x == 0 then 0 else 1) else x
       ({ flDeclare d f with fl := Builtin.setF d.fl (flagIdx f) x }, "ok")
+    | ["reraiser"] => ({ d with reraise := true }, "ok")
     | ["raise"] =>
-      match Builtin.deliver d.acts d.fl with
+      -- the signal is blocked while its handler runs: a raise from inside a delivery is delivered
+      -- when that delivery has returned, i.e. two deliveries back to back (`Builtin.run`)
+      let evs : List Builtin.Ev := if d.reraise then [.raise, .raise] else [.raise]
+      match Builtin.run d.acts d.fl evs with
       | .returned fl' =>
         let txt := "alive" ++ String.join ((d.bools ++ d.usizes).map (fun n => s!" {n}={Builtin.getF fl' (flagIdx n)}"))
-        ({ d with fl := fl' }, txt)
+        ({ d with fl := fl', reraise := false }, txt)
       | .exited code hooks _ => ({ d with dead := some code }, if hooks then "ATEXIT-HOOK-RAN" else "")
     | _ => (d, "bad-op")
 
